@@ -266,6 +266,8 @@ type c37Model struct {
 	// Dropped: columns removed by DROP COLUMN, most recent last (candidates for re-adding under the
 	// same name with the same definition)
 	Dropped []c37Col
+	// JustDropped: the last accepted statement was a DROP COLUMN
+	JustDropped bool
 	// RewriteReadd: columns re-added (same name as a dropped column) with NOT NULL or a DEFAULT, i.e.
 	// through dolt's table-rewrite path, whose tag choice consults the branch HEAD
 	RewriteReadd map[string]bool
@@ -744,11 +746,19 @@ func c37GenAlter(rt *rapid.T, m *c37Model) c37Stmt {
 		return out
 	}
 	pick := func(cs []c37Col, label string) c37Col { return cs[rapid.IntRange(0, len(cs)-1).Draw(rt, label)] }
-	ops := []string{"addcol", "addcol", "addcol", "dropcol", "modify", "modify", "renamecol", "addidx", "dropidx", "addchk", "dropchk", "setdefault", "dropdefault", "tblcomment", "tblcollate", "renameidx", "change"}
+	justDropped := m.JustDropped
+	m.JustDropped = false
+	ops := []string{"addcol", "addcol", "addcol", "addcol", "dropcol", "dropcol", "modify", "modify", "renamecol", "addidx", "dropidx", "addchk", "dropchk", "setdefault", "dropdefault", "tblcomment", "tblcollate", "renameidx", "change"}
 	for try := 0; try < 6; try++ {
-		switch rapid.SampledFrom(ops).Draw(rt, "alter.op") {
+		op := rapid.SampledFrom(ops).Draw(rt, "alter.op")
+		readdNow := false
+		if try == 0 && justDropped && rapid.IntRange(0, 3).Draw(rt, "alter.readd_now") > 0 {
+			// drop immediately followed by re-add: the regenerated tag is the old one
+			op, readdNow = "addcol", true
+		}
+		switch op {
 		case "addcol":
-			if len(m.Dropped) > 0 && rapid.IntRange(0, 2).Draw(rt, "alter.readd") > 0 {
+			if len(m.Dropped) > 0 && (readdNow || rapid.IntRange(0, 3).Draw(rt, "alter.readd") > 0) {
 				// drop-then-re-add: the same name and definition come back
 				d := m.Dropped[len(m.Dropped)-1]
 				taken := false
@@ -773,6 +783,15 @@ func c37GenAlter(rt *rapid.T, m *c37Model) c37Stmt {
 			}
 			class := rapid.SampledFrom(c37Classes).Draw(rt, "class")
 			sp := c37GenColSpec(rt, m, class, true)
+			if !sp.Col.Gen && rapid.Bool().Draw(rt, "alter.bare") {
+				// a bare nullable column without default: dolt adds it in place (no table rewrite)
+				for _, kw := range []string{" NOT NULL", " DEFAULT ", " COMMENT ", " ON UPDATE "} {
+					if i := strings.Index(sp.SQL, kw); i >= 0 {
+						sp.SQL = sp.SQL[:i]
+					}
+				}
+				sp.Expect, sp.Expr = nil, false
+			}
 			sp.Col.Name = m.newName("a")
 			sp.Col.Spec = sp.SQL
 			pos := ""
@@ -796,6 +815,10 @@ func c37GenAlter(rt *rapid.T, m *c37Model) c37Stmt {
 		case "dropcol":
 			if cs := nonPK(); len(cs) > 1 {
 				c := pick(cs, "alter.col")
+				if last := m.Cols[len(m.Cols)-1]; !last.PK && !m.Ref[last.Name] && rapid.Bool().Draw(rt, "alter.droplast") {
+					// the most recently added column: re-adding it regenerates the same tag
+					c = last
+				}
 				return c37Stmt{Alter: true, SQL: fmt.Sprintf("ALTER TABLE %s DROP COLUMN `%s`", t, c.Name), Apply: func(m *c37Model) {
 					var keep []c37Col
 					for _, x := range m.Cols {
@@ -803,6 +826,7 @@ func c37GenAlter(rt *rapid.T, m *c37Model) c37Stmt {
 							keep = append(keep, x)
 						} else {
 							m.Dropped = append(m.Dropped, x)
+							m.JustDropped = true
 						}
 					}
 					m.Cols = keep
@@ -1096,7 +1120,7 @@ func TestVerif_C37(t *testing.T) {
 		}
 	})
 	remoteSeq := 0
-	maxAlters := vh.N(6, 10)
+	maxAlters := vh.N(8, 10)
 	vh.Check(t, "ddl", 120, 250, func(rt *rapid.T) {
 		dbA := srv.NewDBName()
 		dbB := dbA + "_ind"
@@ -1206,7 +1230,7 @@ func TestVerif_C37(t *testing.T) {
 		defer func() { s2.Close() }()
 		commitPoints := map[int]bool{}
 		for i := range accepted {
-			if rapid.IntRange(0, 2).Draw(rt, "b2.commit_after") == 0 {
+			if rapid.Bool().Draw(rt, "b2.commit_after") {
 				commitPoints[i] = true
 			}
 		}
@@ -1287,6 +1311,13 @@ func TestVerif_C37(t *testing.T) {
 			rt.Fatalf("C37 (3): %s tables named %s after the merge", n, m.Table)
 		}
 
+		// the copies below are taken after the merge: the reference is the schema b1 holds now (while the
+		// cadence finding is open the merge may have adopted b2's tag for a re-added column)
+		if pm, err := c37Fetch(srv, dbA, "b1", m.Table); err == nil {
+			p1 = pm
+		} else {
+			rt.Fatalf("HARNESS: %v", err)
+		}
 		// (2) storage round trip: clone through a file remote, or restore from a backup
 		remoteSeq++
 		remote := "file://" + filepath.Join(dir, fmt.Sprintf("remote%d", remoteSeq))
